@@ -14,3 +14,5 @@ func raceEnable()                  { runtime.RaceEnable() }
 func raceRelease(p unsafe.Pointer) { runtime.RaceRelease(p) }
 func raceAcquire(p unsafe.Pointer) { runtime.RaceAcquire(p) }
 func raceErrors() int              { return runtime.RaceErrors() }
+
+func RaceErrors() int { return runtime.RaceErrors() }
